@@ -2455,26 +2455,38 @@ static void MPSwriteRecord(
 {
    char buf[81];
 
-   spxSnprintf(buf, sizeof(buf), " %-2.2s %-8.8s", (indicator == nullptr) ? "" : indicator,
-               (name == nullptr)      ? "" : name);
-   os << buf;
+   // names are written in full and separated by blanks (the reader splits fields at blanks); short names are padded to
+   // the classic field width of 8
+   auto pad = [](const char* s)
+   {
+      std::string t((s == nullptr) ? "" : s);
+
+      if(t.size() < 8)
+         t.resize(8, ' ');
+
+      return t;
+   };
+
+   spxSnprintf(buf, sizeof(buf), " %-2.2s ", (indicator == nullptr) ? "" : indicator);
+   os << buf << pad(name);
 
    if(name1 != nullptr)
    {
       if(spxAbs(value1) >= R(infinity))
-         spxSnprintf(buf, sizeof(buf), "%-8.8s  %s1e+100", name1, value1 < 0 ? "-" : "");
+         spxSnprintf(buf, sizeof(buf), "%s1e+100", value1 < 0 ? "-" : "");
       else
-         spxSnprintf(buf, sizeof(buf), "%-8.8s  %.15" SOPLEX_REAL_FORMAT, name1, (Real) value1);
+         spxSnprintf(buf, sizeof(buf), "%.15" SOPLEX_REAL_FORMAT, (Real) value1);
 
-      os << buf;
+      os << "  " << pad(name1) << "  " << buf;
 
       if(name2 != nullptr)
       {
          if(spxAbs(value2) >= R(infinity))
-            spxSnprintf(buf, sizeof(buf), "   %-8.8s  %s1e+100", name2, value2 < 0 ? "-" : "");
+            spxSnprintf(buf, sizeof(buf), "%s1e+100", value2 < 0 ? "-" : "");
          else
-            spxSnprintf(buf, sizeof(buf), "   %-8.8s  %.15" SOPLEX_REAL_FORMAT, name2, (Real) value2);
-         os << buf;
+            spxSnprintf(buf, sizeof(buf), "%.15" SOPLEX_REAL_FORMAT, (Real) value2);
+
+         os << "   " << pad(name2) << "  " << buf;
       }
    }
 
